@@ -35,7 +35,20 @@ impl Env {
 
     /// Bounded-liveness budget: `2 x |model-reachable| + 16` calls of `next()` per walker.
     pub fn budget(sc: &Scenario, model: &Model, w: &Walker) -> usize {
-        let reach = model.traverse("", w.link, None).len();
+        // Reachable entries, from wherever the walk may start: the world root, the base, any
+        // directory between them (a glob with a `..` prefix starts above the base) or below the base
+        // (a glob with a literal prefix starts there). Links that
+        // re-enter a directory above the start are followed once more than from the world root, so
+        // the maximum is taken.
+        let mut reach = model.traverse("", w.link, None).len();
+        let has_links = sc.tree.iter().any(|n| matches!(n.kind, Kind::Link { .. }));
+        if has_links && w.link == Link::ReadTarget {
+            for (p, info) in &model.nodes {
+                if info.kind == Kind::Dir && (is_under(p, &w.base) || is_under(&w.base, p)) {
+                    reach = reach.max(model.traverse(p, w.link, None).len());
+                }
+            }
+        }
         let added: usize = sc
             .mutations
             .iter()
